@@ -51,7 +51,7 @@ Observe(desc) == /\ UNCHANGED <<pool, used>> /\ last' = desc @@ [out |-> 0, inpl
 
 Perms(n) == {p \in [1..n -> 1..n] : {p[k] : k \in 1..n} = 1..n}
 InjSeqs(n, k) == {q \in [1..k -> 1..n] : \A i, j \in 1..k : i # j => q[i] # q[j]}
-Scalars == {<<2, 0>>, <<-1, 0>>, <<0, 1>>, <<1, -1>>}
+Scalars == {<<1, 0>>, <<2, 0>>, <<-1, 0>>, <<0, 1>>, <<1, -1>>}
 
 T(s) == pool[s]
 R(s) == TRank(pool[s])
@@ -163,7 +163,7 @@ ChAdd == CanChoose("Add") /\ \E a, b \in U, z \in Scalars, o \in {"add_scaled", 
             CanAdd(T(a), T(b)) /\ (o = "iadd_prefactor_other" => Free(a)) /\ Choose([op |-> o, a |-> a, b |-> b, z |-> z])
 ChAddByLabels == CanChoose("AddByLabels") /\ \E a, b \in U, z \in {<<1, 0>>, <<-1, 0>>, <<0, 1>>}, inpl \in BOOLEAN :
                     CanAddByLabels(T(a), T(b)) /\ (inpl => Free(a)) /\ Choose([op |-> "add_by_labels", a |-> a, b |-> b, z |-> z, inpl |-> inpl])
-ChScale == CanChoose("Scale") /\ \E s \in U, z \in Scalars \cup {<<0, 0>>}, o \in {"scale", "iscale_prefactor"} : (o = "iscale_prefactor" => Free(s)) /\ Choose([op |-> o, a |-> s, z |-> z])
+ChScale == CanChoose("Scale") /\ \E s \in U, z \in (Scalars \ {<<1, 0>>}) \cup {<<0, 0>>}, o \in {"scale", "iscale_prefactor"} : (o = "iscale_prefactor" => Free(s)) /\ Choose([op |-> o, a |-> s, z |-> z])
 ChCombine == CanChoose("Combine") /\ \E s \in U : \E k \in 1..3 : k <= R(s) /\ \E g \in InjSeqs(R(s), k), flip \in BOOLEAN :
                 Choose([op |-> "combine_legs", a |-> s, group |-> g, flip |-> flip])
 ChSplit == CanChoose("Split") /\ \E s \in U : \E x \in 1..R(s) : CanSplit(T(s), x) /\ Choose([op |-> "split_legs", a |-> s, x |-> x])
